@@ -26,7 +26,7 @@ def main():
             return np.log(self.in_bounds(x), dtype=float) - np.log(64.0)
 
         def log_likelihood(self, x):
-            return -0.5 * (x["x"] ** 2 + (x["y"] - 0.5) ** 2) * cfg.get("sharp", 1.0)
+            return -0.5 * (x["x"] ** 2 + (x["y"] - 0.5) ** 2) * cfg.get("sharp", 1.0) + cfg.get("offset", 0.0)
 
         def to_unit_hypercube(self, x):
             y = x.copy()
